@@ -1,3 +1,19 @@
 """Kani harness registry (sources in kx/harness/, injected into a scratch copy of /repo on every run)."""
-INJECT = {}
-HARNESSES = {}
+INJECT = {
+    "core_parse_adaptor": {"owner": "core/src/parse/adaptor.rs", "decl": "#[cfg(kani)]\nmod kani_h;", "src": "core_parse_adaptor.rs", "dest": "core/src/parse/adaptor/kani_h.rs"},
+    "core_tracked_ctor": {"owner": "core/src/syntax/tracked.rs", "decl": "#[cfg(kani)]\nimpl TrackedSpan {\n    pub fn kani_new(span: Range<usize>) -> TrackedSpan {\n        TrackedSpan(span)\n    }\n}"},
+    "core_display": {"owner": "core/src/syntax/display.rs", "decl": "#[cfg(kani)]\nmod kani_h;", "src": "core_display.rs", "dest": "core/src/syntax/display/kani_h.rs"},
+    "cli_single_entry": {"owner": "cli/src/import/single_entry.rs", "decl": "#[cfg(kani)]\nmod kani_h;", "src": "cli_single_entry.rs", "dest": "cli/src/import/single_entry/kani_h.rs"},
+    "core_pretty_decimal": {"owner": "core/src/syntax/pretty_decimal.rs", "decl": "#[cfg(kani)]\nmod kani_h;", "src": "core_pretty_decimal.rs", "dest": "core/src/syntax/pretty_decimal/kani_h.rs"},
+    "core_parse_error": {"owner": "core/src/parse/error.rs", "decl": "#[cfg(kani)]\nmod kani_h;", "src": "core_parse_error.rs", "dest": "core/src/parse/error/kani_h.rs"},
+}
+HARNESSES = {
+    "clip_complete": {"crate": "okane-core", "inject": ["core_parse_adaptor", "core_tracked_ctor"], "bound": "none (loop-free, full usize domain)", "complete": True, "timeout": 600},
+    "resolve_is_clip": {"crate": "okane-core", "inject": ["core_parse_adaptor", "core_tracked_ctor"], "bound": "none (loop-free, full usize domain)", "complete": True, "timeout": 600},
+    "parsed_context_line_and_slice": {"crate": "okane-core", "inject": ["core_parse_adaptor", "core_tracked_ctor"], "bound": "ASCII text <= 6 bytes; every span", "timeout": 900},
+    "get_column_complete": {"crate": "okane-core", "inject": ["core_display"], "bound": "none (loop-free, full usize domain)", "complete": True, "timeout": 600},
+    "to_double_entry_signs": {"crate": "okane", "inject": ["cli_single_entry"], "bound": "one record: symbolic i64 mantissa, scale <= 4; optional transferred amount / balance / dest account; no charges, no rates", "timeout": 2400},
+    "display_roundtrip_bounded": {"crate": "okane-core", "inject": ["core_pretty_decimal"], "bound": "|mantissa| < 10^7, scale <= 3, Plain and Comma3Dot", "timeout": 1800},
+    "compute_line_number_bounded": {"crate": "okane-core", "inject": ["core_parse_error"], "bound": "ASCII text <= 6 bytes over {LF,CR,space,a,;}; every pos", "timeout": 600},
+    "parse_error_new_bounded": {"crate": "okane-core", "inject": ["core_parse_error"], "bound": "ASCII text <= 6 bytes; every entry start and failure offset", "timeout": 900},
+}
